@@ -11,6 +11,7 @@ import (
 	"io"
 	"net/http"
 	"net/url"
+	"sort"
 	"strings"
 	"testing"
 
@@ -199,7 +200,7 @@ func c13UsuallyLacksBody(m string) bool {
 
 func TestVerif_C13_h1w(t *testing.T) {
 	s := verifh.New(t, "C13", "h1w",
-		"real persistConn.writeRequest into bufio.NewWriterSize(rec, B), B in {16,64,4096}, rec failing after `limit` bytes in a fifth of the cases; methods POST/PUT/PATCH/GET/DELETE/CONNECT/custom; 0..5 headers incl. lines longer than B; body none / in-memory / scripted reader with Content-Length exact or unknown (chunked; CONNECT: unframed stream), sizes 0,1,B-1..B+1,2B+3,..3B+, read scripts (1-byte, random, whole), EOF with or after the data, a body read error at a random read; 0..2 synchronous dumpers (client level + request level) with random part flags; every case runs with the dumpers and without: both against the Lean write program (wire bytes at return, bytes still buffered, header dump, body dump, withheld byte count at every body Read) and against each other (same bytes; for chunked / CONNECT streams the same withheld counts: the flush schedule does not depend on dump); non-trivial = a body of at least two reads or a failing wire")
+		"real persistConn.writeRequest into bufio.NewWriterSize(rec, B), B in {16,64,4096}, rec failing after `limit` bytes in a fifth of the cases; methods POST/PUT/PATCH/GET/DELETE/CONNECT/custom; 0..5 headers incl. lines longer than B; in a third of the cases a header order (__header_order__: all emitted keys permuted, or a random subset over at most one map key; mixed case, absent keys) = the collect-sort-write path of the field lines; body none / in-memory / scripted reader with Content-Length exact or unknown (chunked; CONNECT: unframed stream), sizes 0,1,B-1..B+1,2B+3,..3B+, read scripts (1-byte, random, whole), EOF with or after the data, a body read error at a random read; 0..2 synchronous dumpers (client level + request level) with random part flags; every case runs with the dumpers and without: both against the Lean write program (wire bytes at return, bytes still buffered, header dump, body dump, withheld byte count at every body Read) and against each other (same bytes; for chunked / CONNECT streams the same withheld counts: the flush schedule does not depend on dump); non-trivial = a body of at least two reads or a failing wire")
 	r := s.Rand()
 	cnt := c13Counter{}
 	n := verifh.N(1200, 25000)
@@ -225,6 +226,46 @@ func TestVerif_C13_h1w(t *testing.T) {
 			tc.header.Add(fmt.Sprintf("X-H%d", r.Intn(4)), verifh.RandBytes(r, vl, "abcdefgh 0123"))
 		}
 		tc.close = r.Intn(8) == 0
+		// round 7: a header order (Request.SetHeaderOrder / Client.SetCommonHeaderOrder / an
+		// impersonation profile all end up as r.Header["__header_order__"]): writeRequest then
+		// collects the field lines, sorts them and writes them in a second pass — a different
+		// write path from the direct one, which must go through the header dump wrappers too.
+		// The outcome is kept deterministic (the unlisted keys of a Go map keep map order): either
+		// every key that can be emitted is listed, or the map holds at most one key.
+		ordered := r.Intn(3) == 0
+		if ordered {
+			cand := []string{"Host", "User-Agent", "Content-Length", "Transfer-Encoding", "Connection", "Trailer", "Accept-Encoding"}
+			var list []string
+			if len(tc.header) <= 1 && r.Intn(2) == 0 {
+				for k := range tc.header {
+					cand = append(cand, k)
+				}
+				for _, k := range cand {
+					if r.Intn(2) == 0 {
+						list = append(list, k)
+					}
+				}
+				if len(list) == 0 {
+					list = []string{"X-Absent"}
+				}
+			} else {
+				list = append(list, cand...)
+				for k := range tc.header {
+					list = append(list, k)
+				}
+				if r.Intn(3) == 0 {
+					list = append(list, "X-Absent")
+				}
+			}
+			sort.Strings(list)
+			r.Shuffle(len(list), func(i, j int) { list[i], list[j] = list[j], list[i] })
+			for i := range list {
+				if r.Intn(3) == 0 {
+					list[i] = strings.ToLower(list[i])
+				}
+			}
+			tc.header["__header_order__"] = list
+		}
 		tc.bodyKind = verifh.Pick(r, []int{0, 1, 2, 2, 2, 2})
 		B := tc.B
 		if tc.bodyKind != 0 {
@@ -389,7 +430,7 @@ func TestVerif_C13_h1w(t *testing.T) {
 			class = "h1-connect-stream-not-flushed-with-body-dump"
 		}
 		nontriv := len(on.reads) >= 3 || tc.limit >= 0
-		human := fmt.Sprintf("B=%d limit=%d %s %s cl=%d bodyKind=%d body=%dB sizes=%v failAt=%d eofData=%v hdr=%d dumpers=%s", tc.B, tc.limit, tc.method, tc.rawURL, tc.cl, tc.bodyKind, len(tc.body), c13ClipInts(tc.sizes), tc.failAt, tc.eofData, len(tc.header), c13H1WDumpers(ds))
+		human := fmt.Sprintf("B=%d limit=%d %s %s cl=%d bodyKind=%d body=%dB sizes=%v failAt=%d eofData=%v hdr=%d order=%v dumpers=%s", tc.B, tc.limit, tc.method, tc.rawURL, tc.cl, tc.bodyKind, len(tc.body), c13ClipInts(tc.sizes), tc.failAt, tc.eofData, len(tc.header), tc.header["__header_order__"], c13H1WDumpers(ds))
 		if len(why) > 0 {
 			human += " ## " + strings.Join(why, " ## ")
 		}
@@ -425,6 +466,15 @@ func TestVerif_C13_h1w(t *testing.T) {
 		if hdrDump {
 			cnt.add(s, "hdr-dump")
 		}
+		if ordered {
+			cnt.add(s, "header-order")
+			if hdrDump {
+				cnt.add(s, "header-order+hdr-dump")
+			}
+			if tc.limit >= 0 {
+				cnt.add(s, "header-order+wire-fails")
+			}
+		}
 		if bodyDump {
 			cnt.add(s, "body-dump")
 		}
@@ -435,7 +485,7 @@ func TestVerif_C13_h1w(t *testing.T) {
 			cnt.add(s, "stream-multi-read")
 		}
 	}
-	for _, must := range []string{"B=16", "B=64", "B=4096", "no-body", "probe", "connect-stream", "chunked", "content-length", "identity-write-path", "identity-readfrom-path", "wire-fails", "body-read-error", "hdr-dump", "body-dump", "two-dumpers", "stream-multi-read"} {
+	for _, must := range []string{"B=16", "B=64", "B=4096", "no-body", "probe", "connect-stream", "chunked", "content-length", "identity-write-path", "identity-readfrom-path", "wire-fails", "body-read-error", "hdr-dump", "body-dump", "two-dumpers", "stream-multi-read", "header-order", "header-order+hdr-dump", "header-order+wire-fails"} {
 		if cnt[must] == 0 {
 			t.Errorf("generator never reached bucket %q", must)
 		}
